@@ -66,5 +66,10 @@ def check_group(run, rule, F, crate, group, expect, floor=None, only=None, what=
         if only and not only(key):
             continue
         if key not in expect.get(group, {}):
-            run.bad(rule, key, "function of group %s has no specified summary (new code touching the mechanism)" % group, f.where())
+            if f.impl_trait is None and "{closure" not in key:
+                # a new inherent / free function cannot change what the specified functions do (if one of them calls it, that
+                # function's own summary shows the call); it is recorded, not reported
+                run.note("unspecified new function in group %s (not a trait method; not judged): %s" % (group, key))
+            else:
+                run.bad(rule, key, "trait method of group %s has no specified summary (new override touching the mechanism)" % group, f.where())
     return n
